@@ -2,6 +2,7 @@
 from __future__ import annotations
 
 import ast
+import os
 import re as _re
 import re._parser as _sp
 
@@ -41,6 +42,45 @@ def rule_exc(rep: Report, rid="C01.exc") -> None:
                     return True
         return False
 
+    assert_status: dict = {}
+
+    def assertion(origin, line):
+        """('proved' | 'refuted' | 'assumed', text) for the assert statement at ``line`` of ``origin``: the condition evaluated
+        by the interpreter on the function alone, under the tests that dominate it."""
+        if (origin, line) in assert_status:
+            return assert_status[(origin, line)]
+        res = ("assumed", "?")
+        try:
+            I_ = new_interp()
+            tree_, _, _ = I_.run(origin)
+            hits = [(n_, ctx_) for n_, ctx_ in nf.iter_nodes(tree_) if n_[0] == "assert" and n_[2] == line]
+            verdicts = []
+            for n_, ctx_ in hits:
+                c_ = n_[1]
+                txt = fmt(c_, I_)
+                if is_const(c_):
+                    verdicts.append(("proved" if c_[1] else "refuted", txt))
+                    continue
+                gs_ = nf.guards_in_ctx(ctx_)
+                v_ = "assumed"
+                try:
+                    if nf.guards_imply(gs_, c_, True):
+                        v_ = "proved"
+                    elif nf.guards_imply(gs_, c_, False):
+                        v_ = "refuted"
+                except Exception:
+                    pass
+                verdicts.append((v_, txt))
+            if verdicts:
+                kinds_ = {v_ for v_, _ in verdicts}
+                res = ("refuted" if "refuted" in kinds_ else "assumed" if "assumed" in kinds_ else "proved", verdicts[0][1])
+        except AnalysisError:
+            raise
+        except Exception as e_:      # the function is outside what the interpreter models: nothing decided
+            res = ("assumed", f"not evaluated ({type(e_).__name__})")
+        assert_status[(origin, line)] = res
+        return res
+
     for q, mode, allowed_root in (("gherkin.parser.Parser.parse", "collect", ["CompositeParserException"]),
                                   ("gherkin.parser.Parser.parse", "stop", None),
                                   ("gherkin.pickles.compiler.Compiler.compile", "collect", []),
@@ -65,6 +105,15 @@ def rule_exc(rep: Report, rid="C01.exc") -> None:
             if exc == "AssertionError" and origin.startswith("gherkin.pickles.compiler"):
                 rep.ob(rid, f"{label}: the envelope-kind assertion cannot fail (builder creates only the kinds the compiler distinguishes; see C01.kinds)", True, **kw,
                        expected="discharged by exhaustiveness", found="assert exists")
+                continue
+            if exc == "AssertionError":
+                # an assert states what its author holds to be impossible.  Decided where the condition can be evaluated (a
+                # condition that is false on a path is a violation); otherwise taken as stated and listed - see DESIGN.md
+                verdict, txt = assertion(origin, line)
+                rep.ob(rid, f"{label}: assertion in {origin.rsplit('.', 1)[-1]} does not fail", verdict != "refuted", **kw,
+                       expected="condition holds whenever the statement is reached",
+                       found={"proved": "holds on every path (evaluated)", "assumed": "taken as stated by the author (not decided statically): ",
+                              "refuted": "false on a path that reaches it: "}[verdict] + ("" if verdict == "proved" else txt))
                 continue
             if allowed_root is None:
                 ok = parser_error in b
@@ -221,6 +270,31 @@ def branch_guards(guards, c, pol):
     return expand_guards(out)
 
 
+def _lift_conds(t):
+    """A test of a value that is itself a choice - ``len(a if c else b) == 0``, ``(a if c else b) is None`` - as the choice
+    between the tests of the alternatives."""
+    if not isinstance(t, tuple) or not t:
+        return t
+    k = t[0]
+    if k == "not":
+        return ("not", _lift_conds(t[1]))
+    if k == "bool":
+        return ("bool", t[1], tuple(_lift_conds(x) for x in t[2]))
+    if k == "cond":
+        return ("cond", _lift_conds(t[1]), _lift_conds(t[2]), _lift_conds(t[3]))
+    if k == "call" and t[1] == "len" and len(t[2]) == 1 and not t[3]:
+        a = _lift_conds(t[2][0])
+        if a[0] == "cond":
+            return ("cond", a[1], _lift_conds(("call", "len", (a[2],), ())), _lift_conds(("call", "len", (a[3],), ())))
+        return t
+    if k == "cmp" and len(t) == 4:
+        a = _lift_conds(t[2])
+        if isinstance(a, tuple) and a and a[0] == "cond":
+            return ("cond", a[1], _lift_conds(("cmp", t[1], a[2], t[3])), _lift_conds(("cmp", t[1], a[3], t[3])))
+        return t
+    return t
+
+
 RE_FUNCS = {"re.sub", "re.search", "re.match", "re.split", "re.finditer", "re.findall", "re.fullmatch", "re.compile", "re.subn"}
 
 
@@ -229,6 +303,7 @@ def rule_partial(rep: Report, rid="C01.partial") -> None:
     nfs = _all_nfs()
     # (i) regex sites
     ast_sites = set()
+    n_level = 0         # patterns compiled at module / class level
     for fi in f.all_functions():
         if fi.module.name == "gherkin.inout" or fi.module.name.startswith("scripts"):
             continue
@@ -247,6 +322,7 @@ def rule_partial(rep: Report, rid="C01.partial") -> None:
                         _sp.parse(pat.value)
                     except Exception:
                         ok = False
+                n_level += 1
                 rep.ob(rid + ".regex", f"module-level pattern {m.name}.{name} is a constant, well-formed regular expression", ok, file=m.rel, line=val.lineno,
                        function=m.name, expected="constant pattern", found=unparse(pat) if pat is not None else None)
         for c in m.classes.values():
@@ -259,6 +335,7 @@ def rule_partial(rep: Report, rid="C01.partial") -> None:
                             _sp.parse(pat.value)
                         except Exception:
                             ok = False
+                    n_level += 1
                     rep.ob(rid + ".regex", f"class-level pattern {c.name}.{name} is a constant, well-formed regular expression", ok, file=m.rel, line=val.lineno,
                            function=c.qualname, expected="constant pattern", found=unparse(pat) if pat is not None else None)
     seen = {}
@@ -330,7 +407,7 @@ def rule_partial(rep: Report, rid="C01.partial") -> None:
         ok, sk, fn, call, shown = got
         rep.ob(rid + ".regex", f"{call}: the pattern is well-formed for every input (constant parts parse; dynamic parts are re.escape'd)", ok, file=key[0], line=key[1],
                function=fn, expected="constant text and re.escape(...) only", found=shown + "  => " + sk[:80])
-    rep.floor("regular-expression call sites", len(ast_sites), 2)
+    rep.floor("regular-expression call sites", len(ast_sites) + n_level, 2)
     # (ii) keys that may be absent (dropped by reject_nones) are only read under an 'in' test
     optional = {"dataTable", "docString", "mediaType", "tableHeader", "feature"}
     c = cr.cnf()
@@ -448,11 +525,15 @@ def rule_partial(rep: Report, rid="C01.partial") -> None:
                         ok, why = True, "guarded"
                 if not ok:
                     # a composite guard (e.g. the truthiness of ``xs[0] if xs else None``) that can only hold when the sequence is non-empty
-                    try:
-                        if nf.guards_imply([g for g in guards if nf.contains(g[0], lambda x, b_=base: x == b_)], base):
-                            ok, why = True, "guarded"
-                    except Exception:
-                        pass
+                    rel = [(_lift_conds(g[0]), g[1]) for g in guards if nf.contains(g[0], lambda x, b_=base: x == b_)]
+                    for atom_, val_ in ((base, True), (ln_, True), (("cmp", "Lt", ln_, const(1)), False), (("cmp", "Eq", ln_, const(0)), False),
+                                        (("cmp", "Gt", ln_, const(0)), True)):
+                        try:
+                            if nf.guards_imply(rel, atom_, val_):
+                                ok, why = True, "guarded"
+                                break
+                        except Exception:
+                            pass
                 if not ok and base[0] == "call" and base[1] in ("re.split", ".split", ".rsplit", ".partition", ".splitlines") and t[2][1] == 0 and base[1] != ".splitlines":
                     ok, why = True, "split never returns an empty list"
                 if not ok and base[0] in ("tuple", "elem", "param?") or (base[0] == "item" and base[1][0] == "elem"):
@@ -478,6 +559,8 @@ def rule_partial(rep: Report, rid="C01.partial") -> None:
                         ok, why = True, "grammar: a table node holds at least one #TableRow"
                 if not ok and base[0] == "ref" and isinstance(I.obj(base), HList) and any(s[0] == "e" for s in I.obj(base).segs):
                     ok, why = True, "list display with elements"
+                if not ok and os.environ.get("GSA_DEBUG_IDX"):
+                    print("IDX", fmt(t, I), "\n   guards:", [(fmt(g_, I), p_) for g_, p_ in guards])
                 rep.ob(rid + ".index", f"{label}: constant index {t[2][1]} is applied to a sequence that cannot be empty there", ok, file=fi.file, line=line,
                        function=fi.qualname, expected="dominating truthiness/length test or grammar-justified", found=(why or "unguarded") + ": " + fmt(t, I)[:120])
             if t[0] == "ref":
